@@ -8,7 +8,7 @@ from engine.vtime import PinnedClock, SDatetime, STimedelta, real_datetime, real
 from harness import c07_names as N
 from harness.common import SEC, T0, Y2000, Y2050, Y2100, run_async, try_consume
 
-HUNDRED_Y = 100 * 36525 * 86400 * 10**5
+HUNDRED_Y = 36525 * 86400 * 10**6   # 100 julian years in µs
 
 
 def same(S, label, a, b):
